@@ -182,6 +182,108 @@ def conditioning(case):
     return out
 
 
+
+def variant_checks(res, rng, ctx, prefix):
+    """dtype / memory-layout variants of the SAME numbers, grain permutations and large aggregates for `core.derivatives`
+    (both code paths; ONE compiled-path subprocess). `prefix` is the clause name used in the violation keys of the calling property."""
+    from . import common as C
+
+    variants = []
+    for j in range(6 if not ctx["thorough"] else 40):
+        c = make_case(rng, j, nmax=6)
+        c["A"] = np.ascontiguousarray(rotations(rng, c["n"], "axis"))       # entries 0, +-1: exact in every dtype
+        onehot = np.zeros(c["n"])
+        onehot[int(rng.integers(0, c["n"]))] = 1.0
+        c["f"] = onehot
+        L = velocity_gradient(rng, "dyadic")
+        c.update(L=L, D=(L + L.T) / 2)
+        variants.append(("base", j, c))
+        variants.append(("int_fractions", j, dict(c, f=onehot.astype(np.int64))))
+        variants.append(("float32_fractions", j, dict(c, f=onehot.astype(np.float32))))
+        variants.append(("fortran_orientations", j, dict(c, A=np.asfortranarray(c["A"]))))
+        variants.append(("strided_fractions", j, dict(c, f=np.repeat(onehot, 2)[::2])))
+        variants.append(("float32_orientations", j, dict(c, A=c["A"].astype(np.float32))))
+        variants.append(("int_orientations", j, dict(c, A=c["A"].astype(np.int64))))
+        variants.append(("int_regime_np", j, dict(c, regime=np.int64(c["regime"]), phase=np.uint8(c["phase"]), fabric=np.uint8(c["fabric"]))))
+    # grain independence within one call: permuting the grains permutes the rates (a grain's rate does not depend on which grains
+    # were processed before it); includes frame-aligned grains with exactly vanishing invariants placed FIRST
+    pcases, perms = [], []
+    for j in range(4 if not ctx["thorough"] else 30):
+        c = make_case(rng, j, nmax=8)
+        n = max(c["n"], 3)
+        A = np.ascontiguousarray(rotations(rng, n, "random"))
+        A[0] = np.eye(3)
+        A[1] = signed_perm(rng)
+        L = velocity_gradient(rng, ["simple", "pure", "general"][j % 3])
+        c.update(n=n, A=A, f=np.ascontiguousarray(fractions(rng, n, "dirichlet")), L=L, D=(L + L.T) / 2, phase=0, fabric=j % 5)
+        perm = np.roll(np.arange(n), -2)   # the two special grains go last
+        pcases += [c, dict(c, A=np.ascontiguousarray(A[perm]), f=np.ascontiguousarray(c["f"][perm]))]
+        perms.append(perm)
+    # large aggregates on the compiled path, both dislocation-type regimes, compared with the model
+    big = []
+    for n, reg in ((50000, 6), (65536, 4)) if not ctx["thorough"] else ((49999, 6), (50000, 6), (50001, 4), (65536, 6), (131072, 4)):
+        c = make_case(rng, 1, nmax=3)
+        c.update(n=n, A=np.ascontiguousarray(rotations(rng, n, "random")), f=np.full(n, 1.0 / n), regime=reg)
+        big.append(c)
+    jit_all = run_jit([c for (_, _, c) in variants] + pcases + big)
+    nv, npc = len(variants), len(pcases)
+    v_jit, p_jit, outs = jit_all[:nv], jit_all[nv:nv + npc], jit_all[nv + npc:]
+    v_int = [call_derivatives(c) for (_, _, c) in variants]
+    p_int = [call_derivatives(c) for c in pcases]
+    model = C.run_driver([case_line(c) for c in big])
+    base = {}
+    for (name, j, c), oi_, oj_ in zip(variants, v_int, v_jit):
+        res.evaluations += 1
+        res.count("variant:" + name)
+        for tag, o in (("interpreted", oi_), ("jit", oj_)):
+            rep = {"variant": name, "path": tag, "phase": int(c["phase"]), "fabric": int(c["fabric"]), "regime": int(c["regime"]),
+                   "A": np.asarray(c["A"], float).tolist(), "f": np.asarray(c["f"], float).tolist(), "L": c["L"].tolist()}
+            if o[0] != "ok":
+                res.violation(f"{prefix}:variant:{name}:raises:{o[1]}", f"derivatives raised {o[1]} for {name} inputs ({tag}): {o[2][:150]}", rep)
+                continue
+            if not (np.isfinite(o[1]).all() and np.isfinite(o[2]).all()):
+                res.violation(f"{prefix}:variant:{name}:nonfinite", f"non-finite rates for {name} inputs ({tag})", rep)
+                continue
+            if name == "base":
+                base[(j, tag)] = o
+            elif (j, tag) in base:
+                b = base[(j, tag)]
+                if not (np.allclose(o[1], b[1], rtol=1e-6, atol=1e-9) and np.allclose(o[2], b[2], rtol=1e-6, atol=1e-9)):
+                    res.violation(f"{prefix}:variant:{name}:differs", f"{name} inputs (same numbers) give other rates ({tag})", rep)
+
+    for j, perm in enumerate(perms):
+        for tag, oo in (("interpreted", p_int), ("jit", p_jit)):
+            a, b = oo[2 * j], oo[2 * j + 1]
+            res.evaluations += 1
+            res.count("grain_permutation")
+            c = pcases[2 * j]
+            rep = {"path": tag, "phase": c["phase"], "fabric": c["fabric"], "regime": c["regime"], "A": c["A"].tolist(), "f": c["f"].tolist(),
+                   "L": c["L"].tolist(), "perm": perm.tolist()}
+            if a[0] != "ok" or b[0] != "ok":
+                res.violation(f"{prefix}:grain_permutation:raises", f"derivatives raised on a permuted aggregate ({tag}): {a[:2]} {b[:2]}", rep)
+            elif not (np.allclose(b[1], a[1][perm], rtol=1e-9, atol=1e-12) and np.allclose(b[2], a[2][perm], rtol=1e-9, atol=1e-12)):
+                res.violation(f"{prefix}:grain_permutation:differs", "the rates of a grain depend on the position of the grains in the aggregate "
+                              f"({tag}): max dev {np.abs(b[1] - a[1][perm]).max():.3e}", rep)
+    for c, o, ml in zip(big, outs, model):
+        res.evaluations += 1
+        res.count(f"large_aggregate:n={c['n']}:regime{c['regime']}")
+        rep = {"n": c["n"], "phase": c["phase"], "fabric": c["fabric"], "regime": c["regime"], "L": c["L"].tolist(),
+               "params": [c["p"], c["nexp"], c["lam"], c["M"], c["phi"]]}
+        toks = ml.split()
+        if o[0] != "ok" or toks[0] != "ok":
+            res.violation(f"{prefix}:large_aggregate:raises", f"n={c['n']}: {o[:2]} / model {toks[0]}", rep)
+            continue
+        got = np.array(C.hs2f(toks[1:]))
+        want = np.concatenate([o[1].ravel(), o[2]])
+        # random orientations: no ties; compare everything
+        if not np.allclose(got, want, rtol=1e-7, atol=1e-9 * max(1.0, np.abs(want).max())):
+            bad = int(np.argmax(np.abs(got - want)))
+            res.violation(f"{prefix}:large_aggregate:differs_from_model", f"n={c['n']}, regime {c['regime']} (compiled path): differs from the model "
+                          f"by {np.abs(got - want).max():.3e} at flat index {bad}", rep)
+
+
+
+
 # ---------------------------------------------------------------- JIT worker
 def run_jit(cases, timeout=900):
     """Evaluate `call_derivatives` on the compiled (numba) path in a fresh process."""
